@@ -19,7 +19,6 @@ import os
 import random
 import re
 import shutil
-import sys
 import tempfile
 import threading
 from concurrent.futures import ThreadPoolExecutor
@@ -405,10 +404,7 @@ def _exec_chunk(arg):
     work, cases, control = arg
     out = []
     for c in cases:
-        try:
-            out.append(execute(c, work, control))
-        except core.MachineryError:
-            raise
+        out.append(execute(c, work, control))
     return out
 
 
